@@ -3,99 +3,21 @@ package wmesh
 import (
 	"context"
 	"fmt"
+	. "github.com/postalsys/muti-metroo/internal/verifsim/meshkit"
 	"net"
-	"sort"
 	"time"
 
 	"github.com/postalsys/muti-metroo/internal/identity"
-	"github.com/postalsys/muti-metroo/internal/protocol"
 	"github.com/postalsys/muti-metroo/internal/verifrt/simrt"
 )
 
-func canonCIDR(s string) string {
-	_, n, err := net.ParseCIDR(s)
-	if err != nil {
-		return s
-	}
-	return n.String()
-}
+// DrawMesh draws size, topology, timing and route placement for the flood family.
 
-var advIntervals = []time.Duration{20 * time.Second, 5 * time.Second, 2 * time.Minute, 45 * time.Second}
+// PlaceRoutes gives a drawn subset of nodes unique CIDR/domain/forward routes.
 
-// drawMesh draws size, topology, timing and route placement for the flood family.
-func drawMesh(minN, maxN int, topoChoices []string) *Mesh {
-	n := minN + simrt.Choose(maxN-minN+1, "n")
-	topo := topoChoices[simrt.Choose(len(topoChoices), "topo")]
-	m := NewMesh(n, topo)
-	iv := advIntervals[simrt.Choose(len(advIntervals), "advint")]
-	for _, nd := range m.Nodes {
-		nd.Cfg.Routing.AdvertiseInterval = iv
-		nd.Cfg.Routing.RouteTTL = 5 * iv
-		if nd.Cfg.Routing.RouteTTL < time.Minute {
-			nd.Cfg.Routing.RouteTTL = time.Minute
-		}
-	}
-	simrt.Eventf("mesh n=%d topo=%s edges=%v advint=%v", n, topo, m.Edges, iv)
-	return m
-}
+// AdvObs is a ROUTE_ADVERTISE seen on the wire.
 
-// placeRoutes gives a drawn subset of nodes unique CIDR/domain/forward routes.
-func placeRoutes(m *Mesh, atLeastOne bool) {
-	any := false
-	for j, nd := range m.Nodes {
-		last := j == len(m.Nodes)-1
-		if !(simrt.Chance(1, 2, "exit") || (atLeastOne && last && !any)) {
-			continue
-		}
-		any = true
-		nd.Cfg.Exit.Enabled = true
-		nd.Cfg.Exit.Routes = append(nd.Cfg.Exit.Routes, fmt.Sprintf("10.%d.0.0/16", 100+j))
-		if simrt.Chance(1, 2, "more-cidr") {
-			nd.Cfg.Exit.Routes = append(nd.Cfg.Exit.Routes, fmt.Sprintf("172.%d.7.0/24", 16+j), fmt.Sprintf("fd00:%d::/32", j+1))
-		}
-		if simrt.Chance(1, 2, "domain") {
-			nd.Cfg.Exit.DomainRoutes = append(nd.Cfg.Exit.DomainRoutes, fmt.Sprintf("svc%d.example.com", j), fmt.Sprintf("*.n%d.mesh.test", j))
-		}
-		if simrt.Chance(1, 3, "fwd") {
-			nd.Cfg.Forward.Endpoints = append(nd.Cfg.Forward.Endpoints, struct {
-				Key    string `yaml:"key,omitempty"`
-				Target string `yaml:"target,omitempty"`
-			}{Key: fmt.Sprintf("fwd%d", j), Target: fmt.Sprintf("192.168.%d.5:8000", j)})
-		}
-	}
-}
-
-// advObs is a ROUTE_ADVERTISE seen on the wire.
-type advObs struct {
-	Seq      uint64
-	From, To string
-	Origin   identity.AgentID
-	AdvSeq   uint64
-	Routes   []protocol.Route
-	Path     []identity.AgentID
-	SeenBy   []identity.AgentID
-	At       time.Duration
-}
-
-// watchAdverts records every route advertisement crossing any link.
-func watchAdverts(m *Mesh) *[]advObs {
-	var obs []advObs
-	m.Tap.OnFrame = append(m.Tap.OnFrame, func(ev *FrameEvent) {
-		if ev.Type != protocol.FrameRouteAdvertise {
-			return
-		}
-		adv, err := protocol.DecodeRouteAdvertise(ev.Payload)
-		if err != nil {
-			simrt.Failf("undecodable-advertisement", "route advertisement on the wire does not decode", "%s: %v", ev, err)
-		}
-		var path []identity.AgentID
-		if adv.EncPath != nil && !adv.EncPath.Encrypted {
-			path, _ = protocol.DecodePath(adv.EncPath.Data)
-		}
-		obs = append(obs, advObs{Seq: ev.Seq, From: ev.From, To: ev.To, Origin: adv.OriginAgent, AdvSeq: adv.Sequence, Routes: adv.Routes, Path: path, SeenBy: adv.SeenBy, At: simrt.Elapsed()})
-	})
-	return &obs
-}
+// WatchAdverts records every route advertisement crossing any link.
 
 // checkLoopFree: no stored route has a path that repeats an agent or contains the holder.
 func checkLoopFree(m *Mesh, when string) {
@@ -110,10 +32,10 @@ func checkLoopFree(m *Mesh, when string) {
 			seen := map[identity.AgentID]bool{}
 			for _, p := range r.Path {
 				if p == nd.ID {
-					simrt.Failf("route-through-self", "stored route passes through its holder", "%s at %s holds %s", when, nd.Name, m.routeStr(r))
+					simrt.Failf("route-through-self", "stored route passes through its holder", "%s at %s holds %s", when, nd.Name, m.RouteStr(r))
 				}
 				if seen[p] {
-					simrt.Failf("route-path-revisits", "stored route path revisits an agent", "%s at %s holds %s", when, nd.Name, m.routeStr(r))
+					simrt.Failf("route-path-revisits", "stored route path revisits an agent", "%s at %s holds %s", when, nd.Name, m.RouteStr(r))
 				}
 				seen[p] = true
 			}
@@ -121,30 +43,21 @@ func checkLoopFree(m *Mesh, when string) {
 	}
 }
 
-func edgeSet(m *Mesh) map[[2]int]bool {
-	es := map[[2]int]bool{}
-	for _, e := range m.Edges {
-		es[[2]int{e[0], e[1]}] = true
-		es[[2]int{e[1], e[0]}] = true
-	}
-	return es
-}
-
 // checkConverged is the C12 oracle on a stable, fully connected mesh.
 func checkConverged(m *Mesh) {
-	es := edgeSet(m)
+	es := EdgeSet(m)
 	for i, nd := range m.Nodes {
 		views := m.RoutesAt(i)
 		have := map[string]RouteView{}
 		for _, r := range views {
-			have[r.Table+"|"+r.Key+"|"+m.nameOf(r.Origin)] = r
+			have[r.Table+"|"+r.Key+"|"+m.NameOf(r.Origin)] = r
 		}
 		for j, od := range m.Nodes {
 			if j == i {
 				continue
 			}
 			want := []string{"agent|" + od.Name + "|" + od.Name}
-			o := m.originatedBy(j)
+			o := m.OriginatedBy(j)
 			for _, c := range o.CIDR {
 				want = append(want, "cidr|"+c+"|"+od.Name)
 			}
@@ -161,22 +74,22 @@ func checkConverged(m *Mesh) {
 				}
 				// next hop is a current neighbour
 				nh := m.NodeByID(r.NextHop)
-				if nh == nil || !es[[2]int{i, nh.Idx}] || !hasPeer(nd, r.NextHop) {
-					simrt.Failf("next-hop-not-neighbour", "next hop is not a current neighbour", "%s: %s", nd.Name, m.routeStr(r))
+				if nh == nil || !es[[2]int{i, nh.Idx}] || !HasPeer(nd, r.NextHop) {
+					simrt.Failf("next-hop-not-neighbour", "next hop is not a current neighbour", "%s: %s", nd.Name, m.RouteStr(r))
 				}
 				if len(r.Path) == 0 || r.Path[0] != r.NextHop {
-					simrt.Failf("path-not-from-next-hop", "recorded path does not start at the next hop", "%s: %s", nd.Name, m.routeStr(r))
+					simrt.Failf("path-not-from-next-hop", "recorded path does not start at the next hop", "%s: %s", nd.Name, m.RouteStr(r))
 				}
 				prev := i
 				for _, p := range r.Path {
 					pn := m.NodeByID(p)
 					if pn == nil || !es[[2]int{prev, pn.Idx}] {
-						simrt.Failf("path-not-a-chain-of-links", "recorded path is not a chain of actual links", "%s: %s", nd.Name, m.routeStr(r))
+						simrt.Failf("path-not-a-chain-of-links", "recorded path is not a chain of actual links", "%s: %s", nd.Name, m.RouteStr(r))
 					}
 					prev = pn.Idx
 				}
 				if r.Path[len(r.Path)-1] != r.Origin || r.Origin != od.ID {
-					simrt.Failf("path-does-not-end-at-origin", "recorded path does not end at the advertising agent", "%s: %s", nd.Name, m.routeStr(r))
+					simrt.Failf("path-does-not-end-at-origin", "recorded path does not end at the advertising agent", "%s: %s", nd.Name, m.RouteStr(r))
 				}
 			}
 		}
@@ -193,37 +106,22 @@ func checkMetrics(m *Mesh) {
 			}
 			simrt.Probe(fmt.Sprintf("c13_route_at_%d_hops", min(len(r.Path), 4)))
 			if int(r.Metric) != len(r.Path) {
-				simrt.Failf("metric-not-hop-count", "metric differs from hop count of recorded path ("+r.Table+")", "%s: %s (hops=%d)", nd.Name, m.routeStr(r), len(r.Path))
+				simrt.Failf("metric-not-hop-count", "metric differs from hop count of recorded path ("+r.Table+")", "%s: %s (hops=%d)", nd.Name, m.RouteStr(r), len(r.Path))
 			}
 		}
 	}
 }
 
-func settle(m *Mesh) {
-	iv := m.Nodes[0].Cfg.Routing.AdvertiseInterval
-	simrt.Sleep(2*iv + 10*time.Second)
-}
-
-func bootAndConverge(m *Mesh) {
-	m.StartAll()
-	if !m.WaitConnected(3 * time.Minute) {
-		simrt.Failf("mesh-did-not-connect", "configured peers did not connect without faults", "edges=%v", m.Edges)
-	}
-	settle(m)
-}
-
-var allTopos = []string{"chain", "star", "ring", "diamond", "tree", "random"}
-
 func runC12() {
-	m := drawMesh(2, 7, allTopos)
-	placeRoutes(m, true)
+	m := DrawMesh(2, 7, AllTopos)
+	PlaceRoutes(m, true)
 	// destination servers inside every advertised prefix
 	for j, nd := range m.Nodes {
 		if nd.Cfg.Exit.Enabled {
-			m.Net.ServeTCP(fmt.Sprintf("10.%d.3.4:80", 100+j), echoServer)
+			m.Net.ServeTCP(fmt.Sprintf("10.%d.3.4:80", 100+j), EchoServer)
 		}
 	}
-	bootAndConverge(m)
+	BootAndConverge(m)
 	checkConverged(m)
 	// a stream opened along a learned route reaches the advertising agent
 	// (one probe tunnel per run: concurrent tunnels are C16's subject)
@@ -275,8 +173,8 @@ func runC12() {
 }
 
 func runC13() {
-	m := drawMesh(2, 7, []string{"chain", "tree", "ring", "diamond", "random", "star"})
-	placeRoutes(m, true)
+	m := DrawMesh(2, 7, []string{"chain", "tree", "ring", "diamond", "random", "star"})
+	PlaceRoutes(m, true)
 	// optionally the same prefix advertised by a near and a far exit
 	shared := ""
 	if len(m.Nodes) >= 3 && simrt.Chance(1, 2, "shared-prefix") {
@@ -287,7 +185,7 @@ func runC13() {
 			m.Nodes[j].Cfg.Exit.Routes = append(m.Nodes[j].Cfg.Exit.Routes, shared)
 		}
 	}
-	bootAndConverge(m)
+	BootAndConverge(m)
 	checkMetrics(m)
 	if shared != "" {
 		// the statement's corollary: among equally specific routes the one whose
@@ -299,7 +197,7 @@ func runC13() {
 					held = append(held, rv)
 				}
 			}
-			if len(held) < 2 || len(held[0].Path) == len(held[1].Path) || nd.Cfg.Exit.Enabled && containsStr(nd.Cfg.Exit.Routes, shared) {
+			if len(held) < 2 || len(held[0].Path) == len(held[1].Path) || nd.Cfg.Exit.Enabled && ContainsStr(nd.Cfg.Exit.Routes, shared) {
 				continue
 			}
 			r := nd.A.VerifRouteManager().Lookup(net.ParseIP("10.250.1.1"))
@@ -312,28 +210,11 @@ func runC13() {
 			}
 			simrt.Probe("c13_near_far_compared")
 			if r.OriginAgent != near.Origin {
-				simrt.Failf("farther-exit-preferred", "lookup prefers the farther of two exits for the same prefix", "%s holds [%s] [%s] but lookup returns origin %s", nd.Name, m.routeStr(held[0]), m.routeStr(held[1]), m.nameOf(r.OriginAgent))
+				simrt.Failf("farther-exit-preferred", "lookup prefers the farther of two exits for the same prefix", "%s holds [%s] [%s] but lookup returns origin %s", nd.Name, m.RouteStr(held[0]), m.RouteStr(held[1]), m.NameOf(r.OriginAgent))
 			}
 		}
 	}
 	m.StopAll()
 }
 
-// sortedKeys is a helper for deterministic iteration.
-func sortedKeys[V any](mm map[string]V) []string {
-	ks := make([]string, 0, len(mm))
-	for k := range mm {
-		ks = append(ks, k)
-	}
-	sort.Strings(ks)
-	return ks
-}
-
-func containsStr(xs []string, x string) bool {
-	for _, y := range xs {
-		if y == x {
-			return true
-		}
-	}
-	return false
-}
+// SortedKeys is a helper for deterministic iteration.
